@@ -61,6 +61,11 @@ def cases(M):
             L = tri("l", 2, lower=lower)
             out.append((f"TriangularFactoredDefinite lower={lower} sign={sign}", M.TriangularFactoredDefiniteMatrix(L, sign=sign, factor_is_lower=lower),
                         sign * (L @ L.T), L, {"triangle": "lower" if lower else "upper"}))
+    # a factor with diagonal entries of either sign (any non-singular triangular factor defines sign * F F^T; log_abs_det takes absolute values)
+    Lm = tri("l", 2)
+    Lm[1, 1] = -1 * Lm[1, 1]
+    out.append(("TriangularFactoredDefinite lower, negative diagonal entry", M.TriangularFactoredDefiniteMatrix(Lm, sign=1, factor_is_lower=True), Lm @ Lm.T, Lm, {"triangle": "lower"}))
+    out.append(("TriangularFactoredPositiveDefinite lower, negative diagonal entry", M.TriangularFactoredPositiveDefiniteMatrix(Lm), Lm @ Lm.T, Lm, {"triangle": "lower"}))
     L = tri("l", 2)
     out.append(("TriangularFactoredDefinite TriangularMatrix-factor (no flag)", M.TriangularFactoredDefiniteMatrix(M.TriangularMatrix(L, lower=True), sign=1),
                 L @ L.T, L, {"triangle": "lower"}))
